@@ -35,7 +35,20 @@ class _Hostile:
     __str__ = __repr__
 
 
-class _FalsyError(ValueError):
+class _EqualError(ValueError):
+    """A user exception type with VALUE equality (what a @dataclass exception has): every two instances compare and
+    hash equal although they are distinct objects with their own code.  The library must tell exceptions apart by
+    identity: `exc in some_list` / set membership silently merges such errors (seed C02 h).  Every error a program
+    holds is of this kind (the plain ValueErrors made by `wrap` are not)."""
+
+    def __eq__(self, other):
+        return isinstance(other, _EqualError)
+
+    def __hash__(self):
+        return 7
+
+
+class _FalsyError(_EqualError):
     """A user exception whose truth value is False (an "error collection" that happens to be empty): the library
     must decide by `is not None`, never by truthiness."""
 
@@ -546,12 +559,14 @@ class SWorld:
             # every third error carries an argument whose repr()/str() raise: user exceptions are arbitrary objects
             # and the library must not depend on being able to print them (deterministic in the op index)
             # ... and every third one has a false truth value
-            if (len(w.ops) // 4) % 3 == 0:
-                p.held = ValueError(b, _Hostile())
-            elif (len(w.ops) // 4) % 3 == 1:
+            # ... and all of them have value equality (plain ValueErrors still come from `wrap` below)
+            k = len(w.ops) // 4
+            if k % 3 == 0:
+                p.held = _EqualError(b, _Hostile())
+            elif k % 3 == 1:
                 p.held = _FalsyError(b)
             else:
-                p.held = ValueError(b)
+                p.held = _EqualError(b)
 
         async def drop(p):
             p.held = None
